@@ -113,6 +113,107 @@ Proof.
   - cbn. split; intros [H|H]; auto.
 Qed.
 
+(* ---------- the family maps poolIPV4InUse / poolIPV6InUse (on the bare map) ---------- *)
+Lemma aget_zdel_eq x cm : aget ip_eqb x (zdel x cm) = nz (cnt x cm).
+Proof.
+  unfold zdel, nz. destruct (cnt x cm =? 0)%Z eqn:E; [apply ig_del_eq|].
+  unfold cnt in *. destruct (aget ip_eqb x cm); [reflexivity|discriminate].
+Qed.
+Lemma aget_zdel_ne x x' cm : x <> x' -> aget ip_eqb x' (zdel x cm) = aget ip_eqb x' cm.
+Proof. intros H. unfold zdel. destruct (_ =? 0)%Z; [apply ig_del_ne; exact H|reflexivity]. Qed.
+Lemma keys_zdel x cm : NoDup (map fst cm) -> NoDup (map fst (zdel x cm)).
+Proof. intros H. unfold zdel. destruct (_ =? 0)%Z; [apply keys_adel|]; exact H. Qed.
+
+Lemma aget_udec_eq sel x cm :
+  aget ip_eqb x (udec sel x cm) = nz (cnt x cm - (if sel then 1 else 0))%Z.
+Proof. unfold udec. rewrite aget_zdel_eq. destruct sel; [rewrite cnt_aset; reflexivity|f_equal; lia]. Qed.
+Lemma aget_udec_ne sel x x' cm : x <> x' -> aget ip_eqb x' (udec sel x cm) = aget ip_eqb x' cm.
+Proof. intros H. unfold udec. rewrite (aget_zdel_ne _ _ _ H). destruct sel; [apply ig_set_ne; exact H|reflexivity]. Qed.
+Lemma keys_udec sel x cm : NoDup (map fst cm) -> NoDup (map fst (udec sel x cm)).
+Proof. intros H. unfold udec. apply keys_zdel. destruct sel; [apply (keys_aset ip_eqb ip_eqb_eq)|]; exact H. Qed.
+
+Lemma uu_get n sel x um n' : (sel = true -> aget N.eqb n um <> None) ->
+  inner (aget N.eqb n' (use_unassign n sel x um)) =
+  if n' =? n then udec sel x (inner (aget N.eqb n um)) else inner (aget N.eqb n' um).
+Proof.
+  intros Hp. unfold use_unassign. destruct (aget N.eqb n um) as [cm|] eqn:E.
+  - destruct (N.eqb_spec n' n) as [->|Hne]; [rewrite ng_set_eq; reflexivity|rewrite ng_set_ne by congruence; reflexivity].
+  - destruct sel; [exfalso; apply Hp; reflexivity|]. destruct (N.eqb_spec n' n) as [->|Hne]; [rewrite E; reflexivity|reflexivity].
+Qed.
+Lemma uu_present n sel x um : aget N.eqb n um <> None -> aget N.eqb n (use_unassign n sel x um) <> None.
+Proof. unfold use_unassign. destruct (aget N.eqb n um) eqn:E; [|congruence]. intros _. rewrite ng_set_eq. discriminate. Qed.
+
+Definition UU (n : poolid) (sel : ip -> bool) := fun um x => use_unassign n (sel x) x um.
+
+Lemma uu_fold_present n sel ips : forall um, aget N.eqb n um <> None -> aget N.eqb n (fold_left (UU n sel) ips um) <> None.
+Proof. induction ips as [|x r IH]; intros um H; [exact H|]. cbn [fold_left]. apply IH. apply uu_present. exact H. Qed.
+
+Lemma uu_fold_count n sel ips : forall um n' x', NoDup ips ->
+  (forallb (fun x => negb (sel x)) ips = true \/ aget N.eqb n um <> None) ->
+  aget ip_eqb x' (inner (aget N.eqb n' (fold_left (UU n sel) ips um))) =
+  if (n' =? n) && mem_ip x' ips then nz (cnt x' (inner (aget N.eqb n' um)) - (if sel x' then 1 else 0))%Z
+  else aget ip_eqb x' (inner (aget N.eqb n' um)).
+Proof.
+  induction ips as [|x r IH]; intros um n' x' Hnd Hp.
+  - cbn. rewrite andb_false_r. reflexivity.
+  - inversion Hnd as [|? ? Hn Hd]; subst. cbn [fold_left].
+    assert (Hp1 : sel x = true -> aget N.eqb n um <> None).
+    { intros Hs. destruct Hp as [Hp|Hp]; [|exact Hp]. cbn in Hp. rewrite Hs in Hp. discriminate. }
+    assert (Hp2 : forallb (fun x => negb (sel x)) r = true \/ aget N.eqb n (UU n sel um x) <> None).
+    { destruct Hp as [Hp|Hp]; [left; cbn in Hp; apply andb_true_iff in Hp; tauto|right; apply uu_present; exact Hp]. }
+    rewrite (IH _ _ _ Hd Hp2), mem_ip_cons. unfold UU at 1 2. rewrite (uu_get n (sel x) x um n' Hp1).
+    destruct (n' =? n) eqn:En; [|reflexivity]. cbn.
+    destruct (ip_dec x' x) as [->|Hne].
+    + rewrite ip_eqb_refl, (mem_ip_false _ _ Hn). cbn. apply N.eqb_eq in En. subst n'. apply aget_udec_eq.
+    + rewrite (ip_eqb_neq _ _ Hne). cbn. apply N.eqb_eq in En. subst n'. unfold cnt.
+      rewrite aget_udec_ne by congruence. reflexivity.
+Qed.
+
+Lemma uu_fold_keys n sel ips : forall um n',
+  (forallb (fun x => negb (sel x)) ips = true \/ aget N.eqb n um <> None) ->
+  NoDup (map fst (inner (aget N.eqb n' um))) -> NoDup (map fst (inner (aget N.eqb n' (fold_left (UU n sel) ips um)))).
+Proof.
+  induction ips as [|x r IH]; intros um n' Hp H; [exact H|]. cbn [fold_left].
+  assert (Hp1 : sel x = true -> aget N.eqb n um <> None).
+  { intros Hs. destruct Hp as [Hp|Hp]; [|exact Hp]. cbn in Hp. rewrite Hs in Hp. discriminate. }
+  apply IH.
+  - destruct Hp as [Hp|Hp]; [left; cbn in Hp; apply andb_true_iff in Hp; tauto|right; apply uu_present; exact Hp].
+  - unfold UU. rewrite (uu_get n (sel x) x um n' Hp1). destruct (n' =? n) eqn:En; [|exact H].
+    apply keys_udec. apply N.eqb_eq in En. subst. exact H.
+Qed.
+
+Lemma ua_get n sel x um n' :
+  inner (aget N.eqb n' (use_assign n sel x um)) =
+  if n' =? n then (if sel then inc x (inner (aget N.eqb n um)) else inner (aget N.eqb n um)) else inner (aget N.eqb n' um).
+Proof.
+  unfold use_assign. destruct (N.eqb_spec n' n) as [->|Hne]; [rewrite ng_set_eq; reflexivity|rewrite ng_set_ne by congruence; reflexivity].
+Qed.
+
+Definition UA (n : poolid) (sel : ip -> bool) := fun um x => use_assign n (sel x) x um.
+
+Lemma ua_fold_count n sel ips : forall um n' x', NoDup ips ->
+  aget ip_eqb x' (inner (aget N.eqb n' (fold_left (UA n sel) ips um))) =
+  if (n' =? n) && mem_ip x' ips && sel x' then Some (cnt x' (inner (aget N.eqb n' um)) + 1)%Z
+  else aget ip_eqb x' (inner (aget N.eqb n' um)).
+Proof.
+  induction ips as [|x r IH]; intros um n' x' Hnd.
+  - cbn. rewrite andb_false_r. reflexivity.
+  - inversion Hnd as [|? ? Hn Hd]; subst. cbn [fold_left].
+    rewrite (IH _ _ _ Hd), mem_ip_cons. unfold UA at 1 2. rewrite (ua_get n (sel x) x um n').
+    destruct (n' =? n) eqn:En; [|reflexivity]. cbn. apply N.eqb_eq in En. subst n'.
+    destruct (ip_dec x' x) as [->|Hne].
+    + rewrite ip_eqb_refl, (mem_ip_false _ _ Hn). cbn. destruct (sel x); [apply aget_inc_eq|reflexivity].
+    + rewrite (ip_eqb_neq _ _ Hne). cbn. destruct (sel x); [|reflexivity]. unfold cnt. rewrite aget_inc_ne by congruence. reflexivity.
+Qed.
+
+Lemma ua_fold_keys n sel ips : forall um n',
+  NoDup (map fst (inner (aget N.eqb n' um))) -> NoDup (map fst (inner (aget N.eqb n' (fold_left (UA n sel) ips um)))).
+Proof.
+  induction ips as [|x r IH]; intros um n' H; [exact H|]. cbn [fold_left]. apply IH.
+  unfold UA. rewrite ua_get. destruct (n' =? n) eqn:En; [|exact H]. apply N.eqb_eq in En. subst.
+  destruct (sel x); [apply keys_inc|]; exact H.
+Qed.
+
 (* ---------- one iteration of Unassign's loop ---------- *)
 Section UnassignIp.
   Variables (s : svc) (al : alloc).
@@ -197,8 +298,14 @@ Section UnassignIp.
   Qed.
 
   Lemma uip_panic m x :
-    m_panic (f m x) = m_panic m || del_panics s (a_ports al) (ports_on m x) || is_none (aget N.eqb (a_pool al) (m_use m)).
+    m_panic (f m x) = m_panic m || del_panics s (a_ports al) (ports_on m x) || is_none (aget N.eqb (a_pool al) (m_use m))
+                      || is_none (aget N.eqb (a_pool al) (if is4 x then m_use4 m else m_use6 m)).
   Proof. reflexivity. Qed.
+
+  Lemma ufold_use4 ips m : m_use4 (fold_left f ips m) = fold_left (UU (a_pool al) is4) ips (m_use4 m).
+  Proof. revert m. induction ips as [|x r IH]; intros m; [reflexivity|]. cbn [fold_left]. rewrite IH. reflexivity. Qed.
+  Lemma ufold_use6 ips m : m_use6 (fold_left f ips m) = fold_left (UU (a_pool al) is6) ips (m_use6 m).
+  Proof. revert m. induction ips as [|x r IH]; intros m; [reflexivity|]. cbn [fold_left]. rewrite IH. reflexivity. Qed.
 
   (* ---- the whole loop, over distinct addresses ---- *)
   Lemma ufold_alloc ips m : m_alloc (fold_left f ips m) = m_alloc m.
@@ -264,14 +371,19 @@ Section UnassignIp.
 
   Lemma ufold_panic ips : forall m, NoDup ips -> (ips = [] \/ present m) -> m_panic m = false ->
     (forall x, In x ips -> del_panics s (a_ports al) (ports_on m x) = false) ->
+    (forall x, In x ips -> aget N.eqb (a_pool al) (if is4 x then m_use4 m else m_use6 m) <> None) ->
     m_panic (fold_left f ips m) = false.
   Proof.
-    induction ips as [|x r IH]; intros m Hnd Hp Hpan H; [exact Hpan|].
+    induction ips as [|x r IH]; intros m Hnd Hp Hpan H Htw; [exact Hpan|].
     destruct Hp as [Hp|Hp]; [discriminate|]. inversion Hnd as [|? ? Hn Hd]; subst. cbn [fold_left].
-    apply IH; [exact Hd|right; apply uip_present; exact Hp| |].
+    apply IH; [exact Hd|right; apply uip_present; exact Hp| | |].
     - rewrite uip_panic, Hpan, (H x (or_introl eq_refl)). unfold present in Hp.
-      destruct (aget N.eqb (a_pool al) (m_use m)); [reflexivity|congruence].
+      pose proof (Htw x (or_introl eq_refl)) as Ht.
+      destruct (aget N.eqb (a_pool al) (m_use m)); [|congruence].
+      destruct (aget N.eqb (a_pool al) (if is4 x then m_use4 m else m_use6 m)); [reflexivity|congruence].
     - intros y Hy. rewrite uip_ports. rewrite ip_eqb_neq; [apply H; right; exact Hy|]. intros ->. contradiction.
+    - intros y Hy. specialize (Htw y (or_intror Hy)). unfold f, unassign_ip. cbn [m_use4 m_use6].
+      destruct (is4 y); apply uu_present; exact Htw.
   Qed.
 End UnassignIp.
 
@@ -318,6 +430,11 @@ Section AssignIp.
     - rewrite ip_eqb_refl. apply aget_inc_eq.
     - rewrite (ip_eqb_neq _ _ Hne). apply aget_inc_ne. congruence.
   Qed.
+
+  Lemma afold_use4 ips m : m_use4 (fold_left g ips m) = fold_left (UA (a_pool al) is4) ips (m_use4 m).
+  Proof. revert m. induction ips as [|x r IH]; intros m; [reflexivity|]. cbn [fold_left]. rewrite IH. reflexivity. Qed.
+  Lemma afold_use6 ips m : m_use6 (fold_left g ips m) = fold_left (UA (a_pool al) is6) ips (m_use6 m).
+  Proof. revert m. induction ips as [|x r IH]; intros m; [reflexivity|]. cbn [fold_left]. rewrite IH. reflexivity. Qed.
 
   Lemma afold_alloc ips m : m_alloc (fold_left g ips m) = m_alloc m.
   Proof. revert m. induction ips as [|x r IH]; intros m; [reflexivity|]. cbn [fold_left]. rewrite IH. reflexivity. Qed.
